@@ -5498,3 +5498,37 @@ def r19_14(ctx, rule):
             ok = got == want
             ctx.inst(rule, fid, 'target %r, new %r, include_none=%s' % (t0, new, inc), ok, '-> %r' % (want,) if ok else
                      'gives %r instead of %r: a null (or an empty mapping) of the new layer survives in the accumulated configuration and later deletes an inherited value' % (got, want), fn)
+
+
+@extra('C11', 'R11.16', 'the diff stored under a MIME key is the diff OF the value stored under that key: in add_mime_diff whatever reaches <builder>.patch(key, d) is the result of a differ '
+       'called on the two payload parameters themselves (not on joined, parsed or otherwise transformed copies) and the parameters are never re-bound -- a line diff of joined text '
+       'or a mapping diff of parsed JSON is not a well-formed diff of the list / string that the notebook holds', 1)
+def r11_16(ctx, rule):
+    repo = ctx.repo
+    fid = 'nbdime.diffing.notebooks:add_mime_diff'
+    fn = repo.func(fid)
+    ps = [a.arg for a in fn.args.args]
+    if len(ps) < 4:
+        raise AnalysisError('add_mime_diff: signature changed')
+    av, bv = ps[1], ps[2]
+    rebinds = [x for x in walk_no_nested(fn) if isinstance(x, (ast.Assign, ast.AugAssign)) and
+               any(isinstance(y, ast.Name) and y.id in (av, bv) and isinstance(y.ctx, ast.Store) for t in (x.targets if isinstance(x, ast.Assign) else [x.target]) for y in ast.walk(t))]
+    patches = [c for c in calls_in(fn, nested=False) if isinstance(c.func, ast.Attribute) and c.func.attr == 'patch' and len(c.args) >= 2]
+    if not patches:
+        raise AnalysisError('add_mime_diff: no <builder>.patch(key, diff) found')
+    for c in patches:
+        d = c.args[1]
+        src = d
+        if isinstance(d, ast.Name):
+            ds = [x.value for x in walk_no_nested(fn) if isinstance(x, ast.Assign) and len(x.targets) == 1 and isinstance(x.targets[0], ast.Name) and x.targets[0].id == d.id]
+            if not ds:
+                raise AnalysisError('add_mime_diff: the patched diff `%s` has no definition' % d.id)
+            bad_src = [v for v in ds if not (isinstance(v, ast.Call) and len(v.args) >= 2 and isinstance(v.args[0], ast.Name) and v.args[0].id == av and
+                                             isinstance(v.args[1], ast.Name) and v.args[1].id == bv)]
+            src = bad_src[0] if bad_src else None
+        elif isinstance(d, ast.Call) and len(d.args) >= 2 and isinstance(d.args[0], ast.Name) and d.args[0].id == av and isinstance(d.args[1], ast.Name) and d.args[1].id == bv:
+            src = None
+        ok = src is None and not rebinds
+        ctx.inst(rule, fid, repo.norm(c)[:70], ok, 'the diff of the two payloads as stored' if ok else
+                 '%s: the patch attached to the key was computed from a transformed copy of the payload, so its keys do not address the stored value (ops shifted, out of range, or of the '
+                 'wrong container kind)' % (repo.norm(rebinds[0])[:60] if rebinds else repo.norm(src)[:60]), rebinds[0] if rebinds else c)
